@@ -7,7 +7,7 @@ from ..gen.model import G, build, emit
 from ..refs import tree
 
 ID = "C18"
-RULE = ("calendars built through the API or parsed from generated text, with zoned values in DTSTART/DTEND/DUE/RECURRENCE-ID/RDATE/EXDATE (lists, periods), "
+RULE = ("calendars built through the API or parsed from generated text, with zoned values in DTSTART/DTEND/DUE/RECURRENCE-ID/RDATE/EXDATE (lists, periods; in parsed text also date lists whose TZID is unknown, a Windows name or slash-prefixed), "
         "FREEBUSY and explicit TZID parameters on arbitrary (X-, text) properties at depth <= 64; ids: known Olson ids (UTC, Etc/UTC and GMT as literal TZID parameters among them), unknown ids, Windows names and "
         "'/'-prefixed ids; VTIMEZONEs already present drawn from {used, unused, unknown id, duplicate, without TZID}; 1-3 repeated calls with random "
         "date windows; both providers. Oracles: get_used_tzids() == the TZID parameters found by the R8 observation on every value of every nested "
@@ -85,7 +85,17 @@ def check_case(ctx, case):
         cal = build(model)
     else:
         try:
-            cal = icalendar.Calendar.from_ical(emit(model))
+            text = emit(model)
+            # date lists as other producers write them: the line's own TZID parameter counts, whatever the entries resolve to
+            for tzid in rng.sample(KNOWN + UNKNOWN + AMBIGUOUS, rng.randrange(0, 3)):
+                pname = rng.choice(("RDATE", "EXDATE", "RDATE;VALUE=PERIOD"))
+                value = "20240506T070809/PT1H,20240507T070809/PT1H" if "PERIOD" in pname else "20240506T070809,20240507T070809"
+                ptz = f'"{tzid}"' if any(c in tzid for c in ",;:") else tzid
+                for host in ("BEGIN:VEVENT\r\n", "BEGIN:VTODO\r\n", "BEGIN:VJOURNAL\r\n"):
+                    if host in text:
+                        text = text.replace(host, host + f"{pname};TZID={ptz}:{value}\r\n", 1)
+                        break
+            cal = icalendar.Calendar.from_ical(text)
         except Exception:
             ctx.count("parse-failed")
             return
